@@ -208,7 +208,7 @@ func checkSelect(c selCase) error {
 				firstLen = len(chunks[0])
 			}
 			conn.(*net.TCPConn).CloseWrite()
-			conn.SetReadDeadline(time.Now().Add(10 * time.Second))
+			conn.SetReadDeadline(time.Now().Add(45 * time.Second))
 			buf := make([]byte, 64)
 			_, rerr := conn.Read(buf)
 			closed = rerr != nil && !isTimeout(rerr)
@@ -231,12 +231,12 @@ func checkSelect(c selCase) error {
 			firstLen = len(chunks[0])
 		}
 		conn.CloseWrite()
-		closed = conn.WaitClosed(10 * time.Second)
+		closed = conn.WaitClosed(45 * time.Second)
 	} else {
 		srv.L.SendUDP(&net.UDPAddr{IP: localIP, Port: port}, &net.UDPAddr{IP: net.IPv4(203, 0, 113, 5), Port: 40123}, payload)
 	}
 	if !closed {
-		return fmt.Errorf("server did not close the connection within 10s of the client's EOF")
+		return fmt.Errorf("server did not close the connection within 45s of the client's EOF")
 	}
 	allowed := acceptable(c, firstLen)
 	if expectNone {
